@@ -68,3 +68,14 @@ func (dv *Router) VerifTables() (rib []table.VerifRibEntry, nbrs []table.VerifNe
 func (dv *Router) VerifMgmtQueueLen() int {
 	return dv.nfdc.VerifQueueLen()
 }
+
+// VerifGate, when set, is called at the start of the table-update goroutines
+// (before any lock is taken) with the router's name and the point's name; the
+// simulator may block there to delay the goroutine.
+var VerifGate func(router enc.Name, point string)
+
+func (dv *Router) verifGate(point string) {
+	if VerifGate != nil {
+		VerifGate(dv.config.RouterName(), point)
+	}
+}
